@@ -427,8 +427,9 @@ pub fn run(ctx: &Ctx) -> i32 {
     check_counting::<u32>(ctx, "u32", &[0, 7, u32::MAX], &generic_fns::<u32>(), maxlen, &mut st);
     check_counting::<u64>(ctx, "u64", &[0, 7, u64::MAX], &generic_fns::<u64>(), maxlen, &mut st);
     check_counting::<usize>(ctx, "usize", &[0, 7, usize::MAX], &generic_fns::<usize>(), maxlen, &mut st);
-    let fa32 = [0.25f32, 1.5, 4294967295.0];
-    let fa64 = [0.25f64, 1.5, 4294967295.0];
+    // float alphabets contain two values one ulp apart (distinct sketch values must never be counted as equal)
+    let fa32 = [0.25f32, f32::from_bits(0.25f32.to_bits() + 1), 1.5, 4294967295.0];
+    let fa64 = [0.25f64, f64::from_bits(0.25f64.to_bits() + 1), 1.5, 4294967295.0];
     check_counting::<f32>(ctx, "f32", &fa32, &generic_fns::<f32>(), maxlen, &mut st);
     check_counting::<f64>(ctx, "f64", &fa64, &generic_fns::<f64>(), maxlen, &mut st);
     check_counting::<f32>(ctx, "f32", &fa32, &float_fns::<f32>(exp_f32), maxlen, &mut st);
@@ -459,7 +460,7 @@ pub fn run(ctx: &Ctx) -> i32 {
         "exhaustive": true,
         "evaluations": st.pairs + st.mismatch_pairs + ms.calls,
         "distinct_nontrivial": st.distinct_values.len() + ms.distinct.len(),
-        "rule": "counting: every ordered pair of sketches of length 1..5 over a 3-letter alphabet, for each of the 6 free functions and 2 methods and each element type (u16,u32,u64,usize,f32,f64), oracle count/len computed independently, symmetry, 1 on identical, plus all length pairs la!=lb<=5; MLE: every ordered pair of register vectors over {100,101,102,110}^m and {0,1,log_b 1e3,log_b 1e6}^m (m<=3 quick, 4 thorough) for b in {1.001,1.2,2} and all ordered pairs of real sketches of a 15-set family (nested, disjoint, identical, 30 vs 20000, singletons, empty); distinct = distinct returned values",
+        "rule": "counting: every ordered pair of sketches of length 1..5 over a 3-letter alphabet (4 letters for floats: two of them one ulp apart), for each of the 6 free functions and 2 methods and each element type (u16,u32,u64,usize,f32,f64), oracle count/len computed independently, symmetry, 1 on identical, plus all length pairs la!=lb<=5; MLE: every ordered pair of register vectors over {100,101,102,110}^m and {0,1,log_b 1e3,log_b 1e6}^m (m<=3 quick, 4 thorough) for b in {1.001,1.2,2} and all ordered pairs of real sketches of a 15-set family (nested, disjoint, identical, 30 vs 20000, singletons, empty); distinct = distinct returned values",
         "counting_pairs": st.pairs,
         "length_mismatch_pairs": st.mismatch_pairs,
         "mle_calls": ms.calls,
